@@ -49,8 +49,8 @@ Applies(kind, op, len) ==
 (* dead / fired: as named; acc: bytes transferred so far; dirty: bytes were  *)
 (* accepted since the last successful flush; firedOp: the kind of call that  *)
 (* consumed the fault; redundant: the fault hit a flush with nothing to      *)
-(* flush (no byte accepted since the previous successful flush) - failing    *)
-(* such a call loses nothing.                                                *)
+(* flush (no byte accepted since the previous successful flush) or a write   *)
+(* of zero bytes - failing such a call loses nothing.                        *)
 DevInit == [dead |-> FALSE, fired |-> FALSE, acc |-> 0, dirty |-> FALSE,
             firedOp |-> -1, redundant |-> FALSE]
 
@@ -87,7 +87,7 @@ DevStep(plan, st, i, op, len, ret) ==
    dirty     |-> IF op = OpXfer THEN st.dirty \/ ret > 0
                  ELSE IF op = OpSync /\ ret = 0 THEN FALSE ELSE st.dirty,
    firedOp   |-> IF hit THEN op ELSE st.firedOp,
-   redundant |-> IF hit THEN op = OpSync /\ ~st.dirty ELSE st.redundant]
+   redundant |-> IF hit THEN (op = OpSync /\ ~st.dirty) \/ (op = OpXfer /\ len = 0) ELSE st.redundant]
 
 (* ---------------------------------------------- a recorded call log *)
 (* The same device read off a complete call log (ops, lens, rets) in closed  *)
@@ -96,21 +96,26 @@ DevStep(plan, st, i, op, len, ret) ==
 (* (FaultIO!I_DevLog).  The fault is consumed by call k or never.            *)
 LogHit(plan, ops, lens) ==
   plan.k \in 1..Len(ops) /\ Applies(plan.kind, ops[plan.k], lens[plan.k])
-LogDead(plan, ops, lens, i) == plan.kind = "error" /\ i > plan.k /\ LogHit(plan, ops, lens)
 
 SinkLogLegal(plan, ops, lens, rets) ==
+  LET hit == LogHit(plan, ops, lens)
+      dead == hit /\ plan.kind = "error" IN
   \A i \in 1..Len(ops) :
-    rets[i] \in SinkAnswers(plan, LogDead(plan, ops, lens, i), i, ops[i], lens[i])
+    IF dead /\ i > plan.k THEN rets[i] = RetErr
+    ELSE IF hit /\ i = plan.k THEN rets[i] \in SinkAnswers(plan, FALSE, i, ops[i], lens[i])
+    ELSE rets[i] = (IF ops[i] = OpXfer THEN lens[i] ELSE 0)
 
 (* a trace does not know how many bytes were left: a read may return fewer   *)
 (* bytes than requested at any time (end of file); a planned short read      *)
 (* returns fewer than requested and at least one                             *)
 SrcLogLegal(plan, ops, lens, rets) ==
+  LET hit == LogHit(plan, ops, lens)
+      dead == hit /\ plan.kind = "error" IN
   \A i \in 1..Len(ops) :
-    LET dead == LogDead(plan, ops, lens, i) IN
-    IF dead \/ (Hits(plan, dead, i, ops[i], lens[i]) /\ plan.kind # "short")
-    THEN rets[i] \in SrcAnswers(plan, dead, i, ops[i], lens[i], lens[i])
-    ELSE IF Hits(plan, dead, i, ops[i], lens[i]) THEN rets[i] \in 1..(lens[i] - 1)
+    IF dead /\ i > plan.k THEN rets[i] = RetErr
+    ELSE IF hit /\ i = plan.k THEN
+      IF plan.kind = "short" THEN rets[i] \in 1..(lens[i] - 1)
+      ELSE rets[i] \in SrcAnswers(plan, FALSE, i, ops[i], lens[i], lens[i])
     ELSE IF ops[i] \in {OpXfer, OpGetBytes} THEN rets[i] \in 0..lens[i]
     ELSE rets[i] = 0
 
@@ -122,9 +127,9 @@ LogAcc(ops, rets) == LogAccFrom(ops, rets, 1)
 
 (* bytes were accepted before call k and not flushed successfully since      *)
 LogDirtyBefore(ops, rets, k) ==
-  \E j \in 1..(k - 1) :
-    /\ ops[j] = OpXfer /\ rets[j] > 0
-    /\ \A m \in (j + 1)..(k - 1) : ~(ops[m] = OpSync /\ rets[m] = 0)
+  LET F == {m \in 1..(k - 1) : ops[m] = OpSync /\ rets[m] = 0}
+      f == IF F = {} THEN 0 ELSE CHOOSE m \in F : \A x \in F : x <= m
+  IN \E j \in (f + 1)..(k - 1) : ops[j] = OpXfer /\ rets[j] > 0
 
 LogState(plan, ops, lens, rets) ==
   LET hit == LogHit(plan, ops, lens) IN
@@ -133,7 +138,8 @@ LogState(plan, ops, lens, rets) ==
    acc       |-> LogAcc(ops, rets),
    dirty     |-> LogDirtyBefore(ops, rets, Len(ops) + 1),
    firedOp   |-> IF hit THEN ops[plan.k] ELSE -1,
-   redundant |-> hit /\ ops[plan.k] = OpSync /\ ~LogDirtyBefore(ops, rets, plan.k)]
+   redundant |-> hit /\ \/ (ops[plan.k] = OpSync /\ ~LogDirtyBefore(ops, rets, plan.k))
+                        \/ (ops[plan.k] = OpXfer /\ lens[plan.k] = 0)]
 
 (* ------------------------------------------------------ fault classes *)
 (* none         no fault was consumed                                        *)
